@@ -21,7 +21,7 @@ class Clock(object):
 def run_scenario(job):
     """job = (scenario record from TLC, limit, variant) -> trace line
     variant: 0 plain files; 1 older files gzip'ed; 2 bz2; 3 plain + gz duplicate of every rotated file; 4 comment and
-    corrupt record inserted after the first record of every file; 5 a comment line before the first and after the last record; 6 entries that match the history's name but cannot be opened
+    corrupt records (not JSON; JSON but no register map) inserted after the first record of every file; 5 a comment line before the first and after the last record; 6 entries that match the history's name but cannot be opened
     (a directory, a dangling symbolic link) lie beside the files"""
     warnings.filterwarnings("ignore")
     import cpppo.history.files as hf
@@ -52,6 +52,9 @@ def run_scenario(job):
                     if variant == 4 and n == 0:
                         lg.comment("a comment line")
                         lg._append("%s\t%d\t{ this is not json\n" % (timestamp(BASE + r["ts"]), serial))
+                        # ... and records whose payload is JSON all right, but no register map: a list, a number, true
+                        for junk in ("[40001, 12]", "7", "true"):
+                            lg._append("%s\t%d\t%s\n" % (timestamp(BASE + r["ts"]), serial, junk))
                 if variant == 5:
                     lg.comment("history file ends")
             if age > 0 and variant in (1, 2, 3):
